@@ -166,9 +166,9 @@ type SeedPlan struct {
 	// FaultInInterceptor: the resolver faults of this plan are raised by the field interceptor that
 	// wraps the resolver (after the resolver returned) instead of by the resolver itself
 	FaultInInterceptor bool
-	ForceDir     map[string]int   // path|name -> outcome
-	ArgDirs      bool             // also let argument / input-field directives (name prefix "chk") fail
-	CancelAt     map[string]bool  // Key.String() -> cancel the context in that invocation
+	ForceDir           map[string]int  // path|name -> outcome
+	ArgDirs            bool            // also let argument / input-field directives (name prefix "chk") fail
+	CancelAt           map[string]bool // Key.String() -> cancel the context in that invocation
 }
 
 func (p *SeedPlan) r(parts ...string) uint64 {
